@@ -193,7 +193,7 @@ def r1(R):
 
 
 @rule('C11.R2', 'abort, tpc_abort and tpc_finish all end in the common '
-      'cleanup', props=['C05'], min_instances=3)
+      'cleanup', props=['C05', 'C12'], min_instances=3)
 def r2(R):
     conn = R.prog.cls(CONN)
     for meth in ('abort', 'tpc_abort', 'tpc_finish'):
